@@ -99,3 +99,17 @@ Definition read_destination (s : str) : option (str * str) :=
          | x => x
          end
   end.
+
+(* removal of backslash escapes (what the parser applies to destinations, titles and the language
+   word of a code fence): a backslash before ASCII punctuation disappears, any other stays *)
+Fixpoint strip_backslash (s : str) : str :=
+  match s with
+  | [] => []
+  | c :: r =>
+      if c =? 92 then
+        match r with
+        | d :: r' => if is_ascii_punct d then d :: strip_backslash r' else 92 :: strip_backslash r
+        | [] => [92]
+        end
+      else c :: strip_backslash r
+  end.
